@@ -232,6 +232,70 @@ def _run_shard(args) -> ShardResult:
     return res
 
 
+def _detach_child() -> None:
+    """Own process group (so the parent can kill every descendant, e.g. leaked Manager servers) and no
+    inherited stdout/stderr pipe (so a leftover process can never keep the caller's pipe open)."""
+    try:
+        os.setpgid(0, 0)
+    except OSError:
+        pass
+    dn = os.open(os.devnull, os.O_WRONLY)
+    os.dup2(dn, 1)
+    if not os.environ.get("VERIF_DEBUG"):
+        os.dup2(dn, 2)
+    os.close(dn)
+
+
+def _kill_group(pid: int) -> None:
+    try:
+        os.killpg(pid, signal.SIGKILL)
+    except (ProcessLookupError, PermissionError):
+        pass
+
+
+def _job_child(job, path) -> None:
+    import pickle
+
+    _detach_child()
+    res = _run_shard(job)
+    with open(path + ".tmp", "wb") as f:
+        pickle.dump(res, f)
+    os.replace(path + ".tmp", path)
+
+
+def _run_jobs(jobs: list) -> list[ShardResult]:
+    """Run shard jobs in forked, non-daemonic children (they may start Manager/pool processes themselves),
+    at most NCPU at a time; results come back through pickle files in the scratch area."""
+    import pickle
+
+    ctx = mp.get_context("fork")
+    paths = [boot.fresh_path("shard") + ".pkl" for _ in jobs]
+    pending = list(range(len(jobs)))
+    running: dict[int, Any] = {}
+    results: list[ShardResult | None] = [None] * len(jobs)
+    while pending or running:
+        while pending and len(running) < NCPU:
+            i = pending.pop(0)
+            pr = ctx.Process(target=_job_child, args=(jobs[i], paths[i]), daemon=False)
+            pr.start()
+            running[i] = pr
+        for i, pr in list(running.items()):
+            if not pr.is_alive():
+                pr.join()
+                _kill_group(pr.pid)
+                del running[i]
+                if os.path.exists(paths[i]):
+                    with open(paths[i], "rb") as f:
+                        results[i] = pickle.load(f)
+                    os.unlink(paths[i])
+                else:
+                    r = ShardResult()
+                    r.error = f"shard process died (exit code {pr.exitcode}) without a result: {jobs[i]}"
+                    results[i] = r
+        time.sleep(0.02)
+    return results  # type: ignore[return-value]
+
+
 # ------------------------------------------------------------------------------------------------
 # shrinking (forked child with a time budget; the smallest failing case seen is kept)
 
@@ -287,6 +351,7 @@ def shrink(modname, tier, camp: Campaign, bucket: str, info: dict, n: int, budge
     pid = os.fork()
     if pid == 0:
         try:
+            _detach_child()
             _shrink_child(modname, tier, camp.name, bucket, info["seed"], n, outpath, info["case"])
         finally:
             os._exit(0)
@@ -302,6 +367,7 @@ def shrink(modname, tier, camp: Campaign, bucket: str, info: dict, n: int, budge
         except ProcessLookupError:
             pass
         os.waitpid(pid, 0)
+    _kill_group(pid)
     if os.path.exists(outpath):
         with open(outpath) as f:
             got = json.load(f)
@@ -471,12 +537,7 @@ def run_check(modname: str, tier: str, seed: int, replay: str | None = None) -> 
             per = max(1, n_total // shards)
         for s in range(shards):
             jobs.append((modname, tier, c.name, s, shards, seed, per))
-    ctx = mp.get_context("fork")
-    results: list[tuple[tuple, ShardResult]] = []
-    if jobs:
-        with ctx.Pool(min(NCPU, len(jobs)), maxtasksperchild=1) as pool:
-            for job, res in zip(jobs, pool.imap(_run_shard, jobs, chunksize=1)):
-                results.append((job, res))
+    results: list[tuple[tuple, ShardResult]] = list(zip(jobs, _run_jobs(jobs)))
     camp_by_name = {c.name: c for c in camps}
     all_buckets: dict[tuple[str, str], dict] = {}
     for job, res in results:
@@ -505,13 +566,15 @@ def run_check(modname: str, tier: str, seed: int, replay: str | None = None) -> 
 
     # ---- unlisted failures -> shrink -> replay file -> VIOLATION ---------------------------------
     bucket_table = {}
+    n_shrunk = 0
     for (cname, b), info in sorted(all_buckets.items()):
         c = camp_by_name[cname]
         n_total = c.quick if tier == "quick" else c.thorough
         shards = c.shards_quick if tier == "quick" else c.shards_thorough
         per = max(1, n_total // max(1, min(shards, NCPU)))
-        budget = 25 if tier == "quick" else 90
-        if len(violations) < 6:  # bound total shrink time; later buckets keep their smallest seen case
+        budget = 15 if tier == "quick" else 60
+        n_shrunk += 1
+        if n_shrunk <= 3:  # bound total shrink time; later buckets keep their smallest seen case
             info = shrink(modname, tier, c, b, info, per, budget)
         path = write_replay(pid, f"{cname}-{b}", info["case"], info["detail"], seed, tier)
         violations.append((b, path))
